@@ -1,5 +1,5 @@
 """C15 -- the client mirrors any server's property stream faithfully and survives it."""
-from pyvc.runner import Check, TaskSpec, run_tasks
+from pyvc.runner import Check, TaskSpec, run_tasks, PY_FULL
 from contracts import client as C
 from checks import common
 
@@ -16,7 +16,7 @@ def specs(tier):
     out.append(TaskSpec("delProperty-whole-device", "contracts.client", "task_c15", ("del-device", "Text", 0), replay_kind="client.step"))
     for c in ("Message", "PingRequest", "GetProperties"):
         out.append(TaskSpec("other:" + c, "contracts.client", "task_c15", ("other:" + c, "Text", 0), replay_kind="client.step"))
-    out.append(TaskSpec("client.tcp receive", "contracts.transport", "task_client_receive", ()))
+    out.append(TaskSpec("client.tcp receive", "contracts.transport", "task_client_receive", (), replay_kind="transport.prompt", python=PY_FULL, scenario=True))
     return out
 
 
